@@ -93,6 +93,12 @@ def expected_value(spec, node_id):
     return spec[1]
 
 
+# (10 lines and more: option names LineN stop sorting like numbers)
+COMMENTS = [None, [], ["one"], ["first line", "second; line"], ["line %d of ten" % i for i in range(1, 11)],
+            ["l%d" % i for i in range(1, 13)], ["comment %03d" % (i * 7 % 26) for i in range(1, 26)],
+            ["c%d" % i for i in range(1, 121)]]
+
+
 def build_doc(kind, t, dname, lname, rot, style_rot, value_mode, access, node_src):
     r = type_range(t)
     # member names may contain dots (the parent's name does not: 'Parent.Child' is cut at the first dot)
@@ -119,7 +125,7 @@ def build_doc(kind, t, dname, lname, rot, style_rot, value_mode, access, node_sr
     node_file = 0x11 if node_src in ("file", "both") else None
     node_arg = 0x23 if node_src in ("arg", "both") else None
     doc = {"doc_type": "dcf" if dcf else "eds", "node_id": node_file, "baudrate": (None, 500, 125)[rot % 3],
-           "comments": [None, [], ["one"], ["first line", "second; line"]][rot % 4],
+           "comments": COMMENTS[rot % len(COMMENTS)],
            "device_info": {"VendorName": "ACME", "ProductName": "Thing", "VendorNumber": "0x1234", "BaudRate_250": 1}}
     index = (0x2000, 0x1000, 0x6040, 0x1A00)[rot % 4]
     obj = {"kind": kind, "index": index, "name": "Obj Name"}
